@@ -564,9 +564,55 @@ func builtinPrograms() []*Program {
 		Name:     "builtin/request_name_clash",
 		Packages: []string{"shop.v1"},
 		Files: map[string]string{
-			"shop/v1/a_types.j5s": j5s("package shop.v1", "", "object GetOrderRequest {", "  field note string", "}"),
+			"shop/v1/a_types.j5s":   j5s("package shop.v1", "", "object GetOrderRequest {", "  field note string", "}"),
 			"shop/v1/m_service.j5s": j5s(append([]string{"package shop.v1", "", "object Order {", "  field orderId key:uuid", "}"}, svc("Order", "orderId")...)...),
-			"shop/v1/z_user.j5s": j5s("package shop.v1", "", "object Holder {", "  field req object:GetOrderRequest", "}"),
+			"shop/v1/z_user.j5s":    j5s("package shop.v1", "", "object Holder {", "  field req object:GetOrderRequest", "}"),
+		},
+	})
+
+	// 13. hand-written protos that make the compiler WARN (an import that is not used, an enum
+	// whose zero value is not *_UNSPECIFIED) in a package that another local package imports:
+	// warnings are produced once, by whoever loads or links the file first.
+	out = append(out, &Program{
+		Name:     "builtin/proto_warnings",
+		Packages: []string{"app.v1", "lib.v1", "top.v1"},
+		Files: map[string]string{
+			"lib/v1/lib.proto": pf("lib.v1", []string{`import "google/protobuf/timestamp.proto";`, `import "google/protobuf/duration.proto";`},
+				"enum Colour {", "  RED = 0;", "  GREEN = 1;", "}", "", "message Lib {", "  string lib_id = 1;", "  Colour colour = 2;", "  google.protobuf.Duration ttl = 3;", "}"),
+			"lib/v1/extra.j5s": j5s("package lib.v1", "", "object Extra {", "  field note string", "}"),
+			"app/v1/app.j5s":   j5s("package app.v1", "import lib.v1", "", "object App {", "  field lib object:lib.v1.Lib", "  field extra object:lib.v1.Extra", "}"),
+			"top/v1/top.j5s":   j5s("package top.v1", "import app.v1", "import lib.v1", "", "object Top {", "  field app object:app.v1.App", "  field lib object:lib.v1.Lib", "}"),
+			"top/v1/plain.proto": pf("top.v1", []string{`import "lib/v1/lib.proto";`, `import "app/v1/app.j5s.proto";`},
+				"message Plain {", "  lib.v1.Lib lib = 1;", "}"),
+		},
+	})
+
+	// 14. a dependency (external) file that imports a LOCAL file - a dependency that was built
+	// against a published copy of this bundle's own package - used by a local package that has
+	// no reference of its own to that local package.
+	depOnLocal := &descriptorpb.FileDescriptorProto{
+		Name:       proto.String("other/v1/other.proto"),
+		Syntax:     proto.String("proto3"),
+		Package:    proto.String("other.v1"),
+		Dependency: []string{"lib/v1/lib.j5s.proto"},
+		MessageType: []*descriptorpb.DescriptorProto{{
+			Name: proto.String("Other"),
+			Field: []*descriptorpb.FieldDescriptorProto{{
+				Name: proto.String("lib"), JsonName: proto.String("lib"), Number: proto.Int32(1),
+				Label:    descriptorpb.FieldDescriptorProto_LABEL_OPTIONAL.Enum(),
+				Type:     descriptorpb.FieldDescriptorProto_TYPE_MESSAGE.Enum(),
+				TypeName: proto.String(".lib.v1.Lib"),
+			}},
+		}},
+	}
+	out = append(out, &Program{
+		Name:     "builtin/dep_imports_local",
+		Packages: []string{"app.v1", "lib.v1", "zed.v1"},
+		Deps:     []*descriptorpb.FileDescriptorProto{depOnLocal},
+		Files: map[string]string{
+			"lib/v1/lib.j5s": j5s("package lib.v1", "", "object Lib {", "  field libId string", "}"),
+			"app/v1/app.j5s": j5s("package app.v1", `import "other/v1/other.proto"`, "", "object App {", "  field other object:other.v1.Other", "}"),
+			"zed/v1/zed.j5s": j5s("package zed.v1", "import app.v1", "", "object Zed {", "  field app object:app.v1.App", "}"),
 		},
 	})
 	return out
